@@ -539,6 +539,9 @@ func (g *FuncGen) execConvert(x *ssa.Convert, st *State) error {
 		r := fmt.Sprintf("(%s %s)", f, v)
 		g.define(x, r)
 		g.assert(fmt.Sprintf("(=> (and (<= 0 %s) (< %s 128)) (and (= (strlen %s) 1) (= %s %s)))", v, v, r, g.strByte(r, "0"), v))
+		// any other code point (or an invalid one, which reads U+FFFD) is encoded in two
+		// to four bytes, the first of which is at least 0xC2
+		g.assert(fmt.Sprintf("(=> (or (< %s 0) (>= %s 128)) (and (>= (strlen %s) 2) (>= %s 194)))", v, v, r, g.strByte(r, "0")))
 	case isStringType(to) || isStringType(from):
 		// string <-> []byte / []rune
 		g.execStringConv(x, st)
